@@ -566,6 +566,13 @@ pub fn build_pool(shipped_text: String, shipped_table: Vec<Entry>, n_rendered: u
             let k = 1 + (i / 8) % 20;
             table = real[k..].to_vec();
             tclass = "suffix";
+            if (i / 8) % 4 == 1 {
+                // ...trimmed to recent history AND newer than the built-in table: a run of rows
+                // the built-in table has, followed by rows it lacks
+                let ext = extended_table(&mut r, 3, 2030);
+                table.extend_from_slice(&ext[real.len()..]);
+                tclass = "suffix+future";
+            }
             if (i / 8) % 4 == 3 {
                 // ...or starts EARLIER than 1972: a timeline with whole-second stand-ins for the
                 // 1961-1971 rate offsets, or one that states "0 s from 1900-01-01" explicitly, or
@@ -609,7 +616,15 @@ pub fn build_pool(shipped_text: String, shipped_table: Vec<Entry>, n_rendered: u
             table = extended_table(&mut r, every, 2099);
             tclass = "farfuture";
             far = true;
-            match (i / 16) % 4 {
+            match (i / 16) % 5 {
+                4 => {
+                    // a long pause (the 2022 CGPM resolution suspends leap seconds): the next
+                    // entry comes more than 2^31 s (68 years) after its predecessor
+                    table = real_table();
+                    table.push((ntp_seconds_of_date(2087, 1, 1), 38));
+                    table.push((ntp_seconds_of_date(2090, 7, 1), 39));
+                    tclass = "longpause";
+                }
                 1 => {
                     // a list without a single entry (comments only): nothing is in force, ever
                     table = Vec::new();
@@ -652,7 +667,7 @@ pub fn build_pool(shipped_text: String, shipped_table: Vec<Entry>, n_rendered: u
         // length or entry count; a check that the list starts in 1972) are judged by O1 only: a
         // refusal is not a wrong answer, a silently truncated table is.
         let oversized = i % 8 == 7 && [340usize, 700, 1400, 2800][(i / 8) % 4] >= 1400;
-        let mut strict = !far && !stale && !oversized && tclass != "densefuture" && tclass != "suffix" && tclass != "early";
+        let mut strict = !far && !stale && !oversized && tclass != "densefuture" && !tclass.starts_with("suffix") && tclass != "early";
         if i % 8 == 3 {
             // systematic: which liberties a lenient image takes depends on its rank, not on a draw
             let k = i / 8;
